@@ -35,7 +35,7 @@ def h_roundtrip_dict(ctx, cmd):
             d[name] = ctx.int("f_" + name, _popcount(e[0]))
     raw = cls.marshall_cdb(d)
     ctx.check("encoded length", len(raw) == ctx.oracle(spec["length"]))
-    back = cls.unmarshall_cdb(raw)
+    back = dict(cls.unmarshall_cdb(raw))  # copy: later calls must not alter an earlier result
     ctx.check("decoded key set", set(back.keys()) == set(d.keys()))
     for name in d:
         ctx.check("unmarshall(marshall(d))['%s'] == d['%s']" % (name, name), back[name] == ctx.oracle(d[name]))
@@ -43,7 +43,8 @@ def h_roundtrip_dict(ctx, cmd):
     for name in d:
         d2 = dict(d)
         d2[name] = ctx.int("g_" + name, _popcount(bits[name][0]))
-        back2 = cls.unmarshall_cdb(cls.marshall_cdb(d2))
+        back2 = dict(cls.unmarshall_cdb(cls.marshall_cdb(d2)))
+        ctx.check("decoded key set stays the class's own", set(back2.keys()) == set(d.keys()))
         for other in d:
             if other != name:
                 ctx.check("changing '%s' leaves '%s' alone" % (name, other), back2[other] == ctx.oracle(back[other]))
